@@ -130,6 +130,8 @@ impl FailSafe {
         &mut self,
         fabrics: &mut Fabrics,
         sessions: &mut crate::transport::session::Sessions,
+        #[cfg(feature = "case-resumption")]
+        resumption: &mut crate::sc::case::resumption::ResumableSessions,
         networks: N,
         kv: S,
         expire_sess_id: Option<u32>,
@@ -153,6 +155,8 @@ impl FailSafe {
                 return self.expire(
                     fabrics,
                     sessions,
+                    #[cfg(feature = "case-resumption")]
+                    resumption,
                     expire_sess_id,
                     networks,
                     kv,
@@ -187,6 +191,8 @@ impl FailSafe {
         &mut self,
         fabrics: &mut Fabrics,
         sessions: &mut crate::transport::session::Sessions,
+        #[cfg(feature = "case-resumption")]
+        resumption: &mut crate::sc::case::resumption::ResumableSessions,
         expire_sess_id: Option<u32>,
         networks: N,
         kv: S,
@@ -227,6 +233,25 @@ impl FailSafe {
                 }
             })
         })?;
+
+        // A fabric that was rolled back is gone for good: nothing bound to it may
+        // outlive it, or else - as the next fabric to be added re-uses the same
+        // local index - its sessions and resumption records would end up bound to
+        // an unrelated fabric. Same clean-up as `RemoveFabric`; `expire_sess_id`
+        // is kept (marked expired) only if it is a session of that very fabric.
+        if let Some(fab_idx) = removed_fabric {
+            let keep_sess_id = expire_sess_id.filter(|id| {
+                sessions
+                    .get(*id)
+                    .map(|sess| sess.get_local_fabric_idx() == fab_idx.get())
+                    .unwrap_or(false)
+            });
+
+            sessions.remove_for_fabric(fab_idx, keep_sess_id);
+
+            #[cfg(feature = "case-resumption")]
+            resumption.remove_for_fabric(fab_idx);
+        }
 
         // Any PASE session that was in flight under this fail-safe is
         // now orphaned: its commissioning attempt was rolled back, so the
